@@ -36,7 +36,7 @@ from .kernel import H, HarnessError, Trace, Violation, finite
 from .seams import seed_rng
 
 ALPHA = 1e-9
-MAX_STATES = 4096
+MAX_STATES = 70000  # exhaustive evaluation of tiny circuits is cheap: 2 variables x 260 values
 
 
 # ---------------------------------------------------------------------------
@@ -85,6 +85,14 @@ def gen_recipe(rng: random.Random) -> dict[str, Any]:
         dag.update({"rg": {"algo": "dag"}, "sp": "dag", "nary": "dense", "ni": dag["units"],
                     "ns": dag["units"]})
         rec = dag
+    if rec["kind"] == "rg" and rec["input"]["type"] == "categorical" and rng.random() < 0.12:
+        # wide domains: two variables with well over a hundred categories each
+        rec["rg"] = {"algo": rng.choice(["rbt", "ff"]), "n": 2, "reps": rng.choice([1, 2]),
+                     "seed": rng.randrange(10**6)}
+        rec["input"]["k"] = rng.choice([127, 128, 129, 200, 255, 256, 257])
+        rec["ni"] = min(rec["ni"], 2)
+        rec["ns"] = min(rec["ns"], 2)
+        recipes.fix_units(rec)
     # sampling reads output [0, 0]; with two classes the root sum has more than one output
     # unit as well (the distribution checked is that of the first output)
     rec["nc"] = 1 if rng.random() < 0.6 else 2
@@ -96,6 +104,10 @@ def generate(run_seed: int, tier: str) -> dict[str, Any]:
     cfg = _flags(rng)
     rec = gen_recipe(rng)
     big = [1000, 2000, 5000] if tier == "quick" else [1000, 5000, 20000, 50000]
+    nvars = rec["nv"] if rec["kind"] == "dag" else recipes.rg_num_vars(rec["rg"])
+    if nvars <= 3 and rec["ni"] <= 2 and rng.random() < (0.08 if tier == "quick" else 0.2):
+        # very large sample counts (tiny circuits only: the padded samples are (F, K, N, D))
+        big = big + [200_001, 250_000, 400_003]
     ops: list[dict[str, Any]] = [{"op": "compile", "seed": _seed(rng)}]
     n_ops = rng.randint(3, 7) if tier == "quick" else rng.randint(4, 12)
     for _ in range(n_ops):
@@ -127,7 +139,6 @@ class Exact:
         self.probs = probs  # (S,)
         self.kind = kind  # "discrete" | "gaussian_sig"
         self.k = k  # values per variable
-        self.index = {tuple(int(x) for x in s): i for i, s in enumerate(states)}
 
 
 def exact_distribution(cc: Any, rec: dict[str, Any], semiring: str) -> Exact | None:
@@ -364,16 +375,18 @@ class WorldC:
                               f"cannot emit [{self._where()}]")
         # Q2 support
         mult = ex.k ** np.arange(D - 1, -1, -1)
-        pidx = {int((st * mult).sum()): float(p) for st, p in zip(ex.states, ex.probs)}
+        ptab = np.zeros(ex.k ** D)
+        ptab[(ex.states * mult).sum(axis=1)] = ex.probs
         ridx = (rows * mult).sum(axis=1)
         uniq = np.unique(ridx)
         self.tr.count("cmp:Q2", len(uniq))
-        for u in uniq:
-            if pidx[int(u)] <= 0.0:
-                j = int(np.argmax(ridx == u))
-                raise Violation(
-                    "Q2", f"row {j} = {rows[j].tolist()} was sampled but has probability "
-                          f"{pidx[int(u)]:.3g} under the circuit [{self._where()}]")
+        badu = uniq[ptab[uniq] <= 0.0]
+        if badu.size:
+            u = int(badu[0])
+            j = int(np.argmax(ridx == u))
+            raise Violation(
+                "Q2", f"row {j} = {rows[j].tolist()} was sampled but has probability "
+                      f"{ptab[u]:.3g} under the circuit [{self._where()}]")
         if (ex.probs <= 0).any():
             self.tr.count("sample:sparse-support")
         # Q4 frequencies
